@@ -257,6 +257,17 @@ class NoValue(Exception):
   pass
 
 
+def dotted_name(e: ast.AST) -> str:
+  parts = []
+  while isinstance(e, ast.Attribute):
+    parts.append(e.attr)
+    e = e.value
+  if isinstance(e, ast.Name):
+    parts.append(e.id)
+    return '.'.join(reversed(parts))
+  return ''
+
+
 def neval(e: ast.AST, env: Dict[str, object]):
   """Numeric evaluation of a closed arithmetic/comparison expression over `env` (unparsed name -> python value)."""
   key = unparse(e, 0)
@@ -272,7 +283,8 @@ def neval(e: ast.AST, env: Dict[str, object]):
     return neval(e.value, env)[e.slice.value]
   if isinstance(e, ast.BinOp):
     l, r = neval(e.left, env), neval(e.right, env)
-    ops = {ast.Add: lambda: l + r, ast.Sub: lambda: l - r, ast.Mult: lambda: l * r, ast.Div: lambda: l / r}
+    ops = {ast.Add: lambda: l + r, ast.Sub: lambda: l - r, ast.Mult: lambda: l * r, ast.Div: lambda: l / r,
+           ast.Pow: lambda: l ** r, ast.FloorDiv: lambda: l // r, ast.Mod: lambda: l % r}
     if type(e.op) in ops:
       return ops[type(e.op)]()
   if isinstance(e, ast.UnaryOp):
@@ -290,6 +302,13 @@ def neval(e: ast.AST, env: Dict[str, object]):
            'tuple': tuple, 'len': len, 'sorted': sorted, 'reversed': lambda x: list(reversed(x))}[e.func.id]
     try:
       return fn_(*[neval(a, env) for a in e.args])
+    except (TypeError, ValueError):
+      raise NoValue(key)
+  if isinstance(e, ast.Call) and dotted_name(e.func) in ('math.ceil', 'math.floor', 'np.ceil', 'np.floor', 'round') and len(e.args) == 1 and not e.keywords:
+    import math as _m
+    v_ = neval(e.args[0], env)
+    try:
+      return {'ceil': _m.ceil, 'floor': _m.floor, 'round': round}[dotted_name(e.func).rsplit('.', 1)[-1]](v_)
     except (TypeError, ValueError):
       raise NoValue(key)
   if isinstance(e, ast.ListComp) and len(e.generators) == 1 and isinstance(e.generators[0].target, ast.Name) and not e.generators[0].is_async:
@@ -380,7 +399,7 @@ def method_hook(methods: Dict[str, ast.AST], depth: int = 0):
   return hook
 
 
-def run_concrete(fn: ast.AST, env: Dict[str, object]):
+def run_concrete(fn: ast.AST, env: Dict[str, object], tolerant: bool = False):
   """Interprets a loop-free function body (assignments to names, if/else, return, bare expressions) on a concrete
   environment (unparsed expression -> value) with `neval`; returns the returned value.  NoValue if the body leaves
   that fragment or an expression cannot be evaluated."""
@@ -391,9 +410,23 @@ def run_concrete(fn: ast.AST, env: Dict[str, object]):
       if isinstance(st, ast.Return):
         raise _Ret(neval(st.value, env) if st.value is not None else None)
       if isinstance(st, ast.If):
-        block(st.body if neval(st.test, env) else st.orelse)
+        try:
+          tv = neval(st.test, env)
+        except NoValue:
+          # tolerant mode: an undecidable guard whose body only raises is taken as "passed"
+          if tolerant and not st.orelse and st.body and isinstance(st.body[-1], ast.Raise):
+            continue
+          raise
+        block(st.body if tv else st.orelse)
       elif isinstance(st, ast.Assign) and len(st.targets) == 1 and isinstance(st.targets[0], ast.Name):
-        env[st.targets[0].id] = neval(st.value, env)
+        try:
+          env[st.targets[0].id] = neval(st.value, env)
+        except NoValue:
+          if not tolerant:
+            raise
+          env.pop(st.targets[0].id, None)  # unknown from here on
+      elif tolerant and isinstance(st, ast.Expr):
+        continue
       elif isinstance(st, ast.Assign) and len(st.targets) == 1 and isinstance(st.targets[0], ast.Tuple) \
           and all(isinstance(t, ast.Name) for t in st.targets[0].elts):
         v = neval(st.value, env)
